@@ -66,10 +66,29 @@ Lemma substring_flag_repaired :
   /\ wf_prog [KKeyword (S_ "foo")] = true /\ classify_line [KKeyword (S_ "foo")] wit_mb = None
   /\ reply_ok (search_line [KKeyword (S_ "foo")] wit_mb) (spec_search [KKeyword (S_ "foo")] wit_mb) = true.
 Proof. vm_compute. repeat split; reflexivity. Qed.
-Lemma refuted_text_atom_repeated_field : exists ks mb, refutes CTextAtom ks mb.
-Proof. witness [KHeader (S_ "X-A") (S_ "et")]. Qed.
-Lemma refuted_text_atom_sent_date : exists ks mb, refutes CTextAtom ks mb.
-Proof. witness [KDate true COn (S_ "3", 1, S_ "2006")]. Qed.
+(** regression (fixes "SEARCH matches each occurrence of a header field" and
+    "SENT* keys read RFC 5322 dates"): headerContains concatenated the values of
+    repeated fields (X-A: one / X-A: two matched "et") and re-spaced folded
+    lines; matchesSentDate parsed only RFC1123(Z), so a Date: without day of
+    week never matched.  The former witnesses meet the specification. *)
+Definition fold_msg : str :=
+  S_ "Subject: first" ++ nl ++ S_ "  second   line" ++ nl ++ S_ "Date: 3 Jan 2006" ++ nl ++ S_ " 10:00 +0000" ++ nl ++ nl ++ S_ "b" ++ nl.
+Lemma text_keys_repaired :
+  search_line [KHeader (S_ "X-A") (S_ "et")] wit_mb = ROk []
+  /\ search_line [KHeader (S_ "X-A") (S_ "two")] wit_mb = ROk [1]
+  /\ search_line [KDate true COn (S_ "3", 1, S_ "2006")] wit_mb = ROk [2]
+  /\ classify_line [KHeader (S_ "X-A") (S_ "et"); KDate true COn (S_ "3", 1, S_ "2006")] wit_mb = None
+  /\ field_values fold_msg (S_ "subject") = [S_ " first  second   line"]
+  /\ sent_date fold_msg = Some (2006, 1, 3).
+Proof. vm_compute. repeat split; reflexivity. Qed.
+(** what remains of the sent-date keys: net/mail.ParseDate separates the parts of a
+    date by SPACE only; a Date: field folded with a horizontal tab (RFC 5322 FWS) has no
+    sent date for raven *)
+Definition tab_mb : list smsg :=
+  [ mk_smsg 1 [] (S_ "Date: Mon, 02 Jan 2006" ++ nl ++ [tab] ++ S_ "15:04:05 +0000" ++ nl ++ nl ++ S_ "x" ++ nl) (2026, 10, 1) ].
+Lemma refuted_sent_date_tab : refutes CSentDateTab [KDate true COn (S_ "2", 1, S_ "2006")] tab_mb
+  /\ sent_date (s_text (hd (mk_smsg 0 [] [] (0,0,0)) tab_mb)) = Some (2006, 1, 2).
+Proof. vm_compute. repeat split; reflexivity. Qed.
 Lemma refuted_quoted_space : exists ks mb, refutes CQuotedSpace ks mb.
 Proof. witness [KHdr HSubject (S_ "Hello  World")]. Qed.
 (** regression (fix "UID SEARCH runs the SEARCH evaluator"): uid.handleUIDSearch
